@@ -314,12 +314,20 @@ pub fn check_stream(cfg: &StreamCfg, items: &[Item], diag: &Diag, out: &mut Outc
         return;
     }
     // ---- read back with every reader (C03, C05, C10)
-    let mut padded = fo.bytes.clone();
-    while padded.len() % 16 != 0 {
-        padded.push(0);
-    }
     for &(kind, backend) in &cfg.readers {
         let tables_ok = diag[kind];
+        // pad only up to the reader's own word: strict readers then meet the real end of the data
+        // right after the last item (failed look-ahead refills, exact-end reads)
+        let rw = match kind {
+            "buf8" => 1,
+            "buf16" => 2,
+            "buf32" => 4,
+            _ => 8,
+        };
+        let mut padded = fo.bytes.clone();
+        while padded.len() % rw != 0 {
+            padded.push(0);
+        }
         let mut rd = make_reader(e, kind, backend, "", &padded);
         let rid = format!("{}/{}/{}/w{}/o{}", e.name(), kind, backend, cfg.wbits, cfg.offset);
         let mut mpos = 0usize;
@@ -442,4 +450,85 @@ pub fn replay_item(doc: &Value, diag: &Diag) -> (Vec<String>, bool) {
     }
     let failed = !out.violations.is_empty();
     (log, failed)
+}
+
+
+/// A codeword that ends exactly with the last bit of a strict stream must decode (through every
+/// read variant), leave the reader at the end, and the next read must be an error.
+pub fn check_tail_exact(e: End, kind: &'static str, backend: &'static str, code: Code, v: u64, extra_words: usize, diag: &Diag, prop: &str, out: &mut Outcome) {
+    let w = match kind {
+        "buf8" => 8,
+        "buf16" => 16,
+        "buf32" => 32,
+        _ => 64,
+    };
+    let cw = crate::model::encode(code, v, e);
+    let len = cw.len();
+    let p = (w - len % w) % w + extra_words * w;
+    let mut bits = Bits::new();
+    let mut left = p;
+    while left > 0 {
+        let c = left.min(61);
+        bits.push_field((OFFSET_PAT & ((1u64 << c) - 1)) as u128, c, e);
+        left -= c;
+    }
+    bits.extend(&cw);
+    debug_assert_eq!(bits.len() % w, 0);
+    let bytes = bits.to_bytes(e, 0);
+    let total = bits.len();
+    let tables_ok = diag[kind];
+    let base = make_reader(e, kind, backend, "", &bytes);
+    let rid = format!("{}/{}/{}/tail-exact", e.name(), kind, backend);
+    out.cov.evaluations += 1;
+    out.cov.nontrivial += 1;
+    for (vi, rop) in read_variants(code, false).iter().enumerate() {
+        let tb = rop.tables();
+        if (0..3).any(|i| tb[i] && !tables_ok[i]) {
+            continue;
+        }
+        let mut rd = base.fork();
+        if p > 0 && rd.apply(&ROp::Skip(p as u16)) != RObs::Unit {
+            continue;
+        }
+        let o = rd.apply(rop);
+        out.cov.transitions += 1;
+        let mut fail: Option<(&str, String)> = None;
+        match &o {
+            RObs::Val(x) if *x == v => {
+                if let Some(Ok(pp)) = rd.bit_pos() {
+                    if pp as usize != total {
+                        fail = Some(("position", format!("{:?} left the reader at {} but the stream (and the codeword) ends at {}", rop, pp, total)));
+                    }
+                }
+                if fail.is_none() {
+                    let nx = rd.apply(&ROp::ReadBits(1));
+                    if nx != RObs::Err {
+                        fail = Some(("no-error", format!("after {:?} consumed the last bit, read_bits(1) returned {:?}", rop, nx)));
+                    }
+                }
+            }
+            RObs::Val(x) => fail = Some(("value", format!("{:?} returned {} for the codeword of {}", rop, x, v))),
+            RObs::Panic(m) => fail = Some(("panic", format!("{:?} panicked: {}", rop, m))),
+            other => fail = Some(("error", format!("{:?} -> {:?} although the codeword lies entirely within the data", rop, other))),
+        }
+        let _ = vi;
+        if let Some((sym, det)) = fail {
+            if out.violations.len() < 40 {
+                let mut ops = vec![];
+                if p > 0 {
+                    ops.push(ROp::Skip(p as u16));
+                }
+                ops.push(rop.clone());
+                out.violations.push(viol(
+                    prop,
+                    "tail-exact",
+                    rid.clone(),
+                    format!("read:{}:{}", code.family(), rop.class()),
+                    sym,
+                    format!("{:?}({}) as the last {} bits of a strict stream of {} bits: {}", code, v, len, total, det),
+                    json!({"kind": "reader", "e": e, "rkind": kind, "backend": backend, "wrapper": "", "image": hex(&bytes), "len_bits": total, "zx": false, "limit": total, "tables_ok": tables_ok, "ops": ops}),
+                ));
+            }
+        }
+    }
 }
